@@ -24,6 +24,10 @@ type simProp struct {
 	Observe func(tr *tracker, op *core.Op)
 	// Finish is called at the end of a case that neither failed nor was aborted.
 	Finish func(sim *core.Sim, tr *tracker)
+	// Draw overrides the default op generator (g.Draw); it may return several ops.
+	Draw func(rt *rapid.T, sim *core.Sim, g *core.Gen) []core.Op
+	// Once runs before the generated cases (enumerated parts), in shard 0 only.
+	Once func(t *testing.T, st *core.Stats)
 }
 
 // tracker keeps per-case facts used for labels and the non-triviality rules.
@@ -101,6 +105,9 @@ func runSimProp(t *testing.T, p *simProp) {
 		if p.MaxPlain == 0 {
 			p.MaxPlain = 6
 		}
+		if p.Once != nil && core.EnvInt("VERIF_SHARD", 0) == 0 {
+			p.Once(t, st)
+		}
 		rapid.Check(t, func(rt *rapid.T) {
 			u := core.GenUniverse(rt, p.MaxPlain, p.MinRel, p.MaxRel)
 			cs := st.Begin()
@@ -127,18 +134,22 @@ func runSimProp(t *testing.T, p *simProp) {
 					if sim.Done() {
 						return
 					}
-					op, ok := g.Draw(rt)
-					if !ok {
-						return
+					var ops []core.Op
+					if p.Draw != nil {
+						ops = p.Draw(rt, sim, g)
+					} else if op, ok := g.Draw(rt); ok {
+						ops = []core.Op{op}
 					}
-					sim.Apply(op)
-					tr.step++
-					if sim.Done() {
-						return
-					}
-					cs.Label("op:" + op.K)
-					if p.Observe != nil {
-						p.Observe(tr, &sim.Ops[len(sim.Ops)-1])
+					for _, op := range ops {
+						sim.Apply(op)
+						tr.step++
+						if sim.Done() {
+							return
+						}
+						cs.Label("op:" + op.K)
+						if p.Observe != nil {
+							p.Observe(tr, &sim.Ops[len(sim.Ops)-1])
+						}
 					}
 				},
 			})
